@@ -164,7 +164,9 @@ class ExcelCompiler:
 
             if self.cycles:
                 def _eval(cell, cse_array_address=None):
-                    cell.start_calcs()
+                    if isinstance(cell, _CycleCell):
+                        # (the range of a CSE Array formula is not a cell)
+                        cell.start_calcs()
                     return eval_ctx(
                         cell.formula, cse_array_address=cse_array_address)
 
